@@ -1,6 +1,7 @@
 import Exetera.Props.C06
 import Exetera.Props.C10.Basic
 import Exetera.Model.KernelSitesTransforms
+import Exetera.Model.KernelPathsTransforms
 /-!
 # C10 — the compiled import transforms (owning property: C06)
 
@@ -12,6 +13,14 @@ namespace Exetera.Props.C10
 open Exetera Exetera.Transforms
 
 theorem access_sites_covered_transforms : ∀ k ∈ KernelSites.transformsSites, lookup k.1 = some k := by decide +kernel
+
+/-- the PATH CONDITION of every subscript occurrence in these kernels (enclosing loop guards, `if` / `elif` tests, negated
+    `else` branches and early exits), as regenerated from the current source (`Gen/KernelPaths.lean`), is exactly the one the
+    model was written against (`Model/KernelPathsTransforms.lean`): dropping or changing a test that dominates a subscript breaks
+    the build; and the table covers exactly the kernels of the site table -/
+theorem access_paths_covered_transforms :
+    (∀ k ∈ KernelPaths.transformsPaths, lookupPaths k.1 = some k) ∧
+    KernelPaths.transformsPaths.map (·.1) = KernelSites.transformsSites.map (·.1) := by decide +kernel
 
 example : KernelSites.transformsSites.length = 5 := by decide
 
